@@ -11,6 +11,8 @@ import time
 import warnings
 
 warnings.filterwarnings("ignore")
+import logging
+logging.disable(logging.ERROR)
 VERIF = os.path.dirname(os.path.dirname(os.path.abspath(__file__)))
 sys.path.insert(0, VERIF)
 
